@@ -86,6 +86,84 @@ def mine(a):
     return not a.get('cont')
 
 
+def early_abort_case(item):
+    """redo gives up on a target before its script starts (the environment is broken: TMPDIR points nowhere, the rule's first line
+    is not text); the user then makes the file by hand; later commands - with the cause repaired - must leave that file alone."""
+    import re
+    from .. import common, scen
+    _, cause, rule, later, prior, seed = item
+    tname = {'specific': 'T', 'default-here': 'T.gen', 'default-parent': 'sub/T.gen'}[rule]
+    dopath = {'specific': 'T.do', 'default-here': 'default.gen.do', 'default-parent': 'default.gen.do'}[rule]
+    good = scen.TRACE_HDR + 'echo "S $1 $$ $PPID" >&9\necho generated > "$3"\necho "E $1 $$ 0" >&9\n'
+    files = {dopath: good, 'top.do': scen.TRACE_HDR + 'echo "S $1 $$ $PPID" >&9\nredo-ifchange %s\ncat %s > "$3"\necho "E $1 $$ 0" >&9\n' % (tname, tname)}
+    pj = scen.Project(files, 'c11e')
+    anoms = []
+    obs = dict(early_abort_scenarios=1)
+    try:
+        os.makedirs(os.path.join(pj.top, 'sub'), exist_ok=True)
+        tp = os.path.join(pj.top, tname)
+        if prior == 'built-then-removed':
+            r0, _ = pj.run(['redo-ifchange', tname], verif_log=False)
+            if r0.rc != 0 or not os.path.exists(tp):
+                return dict(verdict='inconclusive', why='early-abort: could not create the prior state', sample=dict(item=list(item)))
+            os.unlink(tp)
+        extra = {}
+        if cause == 'tmpdir':
+            extra['TMPDIR'] = os.path.join(pj.top, 'no-such-tmp-dir')
+        else:
+            common.write_file(os.path.join(pj.top, dopath), b'\xff\xfe not text\n' + good.encode())
+        r1, _ = pj.run(['redo', tname] if seed % 2 else ['redo-ifchange', tname], extra=extra, verif_log=False)
+        if r1.rc == 0 or os.path.lexists(tp):
+            return dict(verdict='inconclusive', why='early-abort: the broken environment did not stop redo (rc %s)' % r1.rc, sample=dict(item=list(item)))
+        obs['aborted_before_script'] = 1 if not re.search(r'^S %s ' % re.escape(tname), pj.trace_text(), re.M) else 0
+        # the user makes the file by hand; the cause is repaired
+        common.write_file(tp, b'made by hand\n')
+        st0 = os.lstat(tp)
+        fp0 = (st0.st_ino, st0.st_size, st0.st_mtime_ns, common.read_file(tp))
+        if cause != 'tmpdir':
+            common.write_file(os.path.join(pj.top, dopath), good)
+            os.utime(os.path.join(pj.top, dopath), ns=(10 ** 18, 10 ** 18))
+        cmds = {'redo': [['redo', tname]], 'ifchange': [['redo-ifchange', tname]], 'consumer': [['redo-ifchange', 'top']],
+                'all': [['redo-ifchange', tname], ['redo', 'top'], ['redo', tname]]}[later]
+        nS0 = len(re.findall(r'^S %s ' % re.escape(tname), pj.trace_text(), re.M))
+        for argv in cmds:
+            r2, _ = pj.run(argv, verif_log=False)
+            st1 = os.lstat(tp) if os.path.lexists(tp) else None
+            fp1 = None if st1 is None else (st1.st_ino, st1.st_size, st1.st_mtime_ns, common.read_file(tp))
+            if fp1 != fp0:
+                anoms.append(dict(key='user-file-touched:after-early-abort:%s' % cause,
+                                  what='%s (rule %s, %s): the hand-made %s is %r after %s (was %r)' % (cause, rule, prior, tname, fp1 and fp1[3][:30], argv, fp0[3])))
+                break
+            if r2.rc != 0:
+                anoms.append(dict(key='exit:expected-ok:after-early-abort', what='%s exits %s: %s' % (argv, r2.rc, r2.err[-200:])))
+                break
+        nS1 = len(re.findall(r'^S %s ' % re.escape(tname), pj.trace_text(), re.M))
+        if nS1 != nS0:
+            anoms.append(dict(key='script-ran-for-user-file:after-early-abort', what='the rule for %s ran although the file is the user\'s' % tname))
+        if later in ('consumer', 'all') and not anoms:
+            got = common.read_file(os.path.join(pj.top, 'top'))
+            if got != b'made by hand\n':
+                anoms.append(dict(key='stale:consumer-of-user-file:after-early-abort', what='top is %r' % (got,)))
+    finally:
+        pj.close()
+    res = dict(verdict='violated' if anoms else 'held', nontrivial=True, shape=common.shash(list(item)),
+               sample=dict(kind='early-abort', cause=cause, rule=rule, later=later, prior=prior), obs=obs, sets=dict(early_abort_causes=[cause]))
+    if anoms:
+        res['violations'] = anoms[:3]
+        res['replay'] = dict(kind='early-abort', item=list(item))
+    return res
+
+
+class Dispatch:
+    def __init__(self, hist):
+        self.hist = hist
+
+    def __call__(self, item, **kw):
+        if isinstance(item, (tuple, list)) and item and item[0] == 'early-abort':
+            return early_abort_case(tuple(item))
+        return self.hist(item, **kw)
+
+
 CASE = histcheck.HistCase(PROP, prof, {'user-file-touched', 'overbuild', 'underbuild', 'stale', 'exit', 'warning-absent', 'multi'}, nontrivial, hook=hook, keyfilter=mine)
 
 RULE = ('histories over programs whose target names are matched by specific rules, default.<ext>.do in the same directory and in a parent '
@@ -93,16 +171,36 @@ RULE = ('histories over programs whose target names are matched by specific rule
         'it by rename (new inode), removes it again; dependents above the contested files. Oracles: (inode, size, mtime, bytes) of every '
         'user-owned file unchanged by every command; the script of a user-owned name never runs (trace); dependents see the user\'s bytes '
         '(content oracle); after the user removes the file the next build produces it again; a hand-edited generated target named on '
-        'the command line draws the "you modified it" warning. Non-trivial: >=1 user write, >=2 builds, >=2 ownership changes. '
+        'the command line draws the "you modified it" warning. Early-abort layer: redo gives up on a target before its script starts (TMPDIR points nowhere / the rule\'s first line is not text), '
+        'the user makes the file by hand, the cause is repaired: later redo / redo-ifchange / consumer builds leave the file (inode, size, mtime, bytes) alone, the rule does not run, the consumer sees the user\'s bytes. Non-trivial: >=1 user write, >=2 builds, >=2 ownership changes. '
         'Distinct: (graph shape, op sequence).')
 ASSUME = ['harness edits always change mtime (and the size or inode)', 'ownership automaton none/redo/user of rvlib/model.py']
 
 
 def main(tier):
     n, budget = (240, 70) if tier == 'quick' else (5000, 780)
-    return histcheck.run(PROP, tier, CASE, histcheck.seeds_for(PROP, tier, n), 'exploration', RULE, ASSUME, budget, floor=20)
+    extra = []
+    for rep in range(1 if tier == 'quick' else 8):
+        for cause in ('tmpdir', 'not-text'):
+            for rule in ('specific', 'default-here', 'default-parent'):
+                for later in (('all', 'consumer') if tier == 'quick' else ('redo', 'ifchange', 'consumer', 'all')):
+                    for prior in ('never-built', 'built-then-removed'):
+                        extra.append(('early-abort', cause, rule, later, prior, rep))
+    return histcheck.run(PROP, tier, Dispatch(CASE), extra + histcheck.seeds_for(PROP, tier, n), 'exploration', RULE, ASSUME, budget, floor=20)
 
 
 def replay(path):
+    import json
+    d = json.load(open(path))
+    if d['replay'].get('kind') == 'early-abort':
+        from .. import common
+        common.ensure_built()
+        r = early_abort_case(tuple(d['replay']['item']))
+        print(r.get('verdict'), r.get('violations') or r.get('why'))
+        common.cleanup_scratch()
+        if r.get('verdict') == 'violated':
+            print('VIOLATION property=%s replay=%s' % (PROP, path))
+            return 1
+        return 0
     from ..replay import replay_history
     return replay_history(PROP, path)
